@@ -146,13 +146,15 @@ def rule_exit_machine(ctx):
     fn = tu.func('reb_simulation_integrate_raw')
     body = cfront.body(fn)
     top = body.get('inner', [])
-    loop_idx = [i for i, s in enumerate(top) if s.get('kind') == 'WhileStmt']
-    anchor(len(loop_idx) == 1, 'reb_simulation_integrate_raw has one top-level while loop')
-    li = loop_idx[0]
+    from .. import normal
+    li, cond_node, loop_items = normal.main_loop(top, 'reb_simulation_step')
+    anchor(li is not None and cond_node is not None and cond_node.get('kind'), 'the loop of reb_simulation_integrate_raw that calls reb_simulation_step, with its continuation test')
     loop = top[li]
     n += 1
     where = 'src/rebound.c reb_simulation_integrate_raw'
-    cond = render(loop['inner'][0]).replace(' ', '')
+    cond = render(cond_node).replace(' ', '')
+    if not cond.startswith('('):
+        cond = '(' + cond + ')'
     if 'reb_check_exit(' not in cond or not cond.endswith('<0)'):
         ctx.report('R08.4', 'integrate:loopcond', where, 'the integration loop is not "while (reb_check_exit(...) < 0)": %s' % cond)
     before = top[:li]
@@ -194,7 +196,7 @@ def rule_exit_machine(ctx):
             ctx.report('R08.6', 'integrate:direction:guard', where, 'the sign of dt is changed even when tmax equals the current time')
     if 'reb_run_heartbeat' not in calls(before):
         ctx.report('R08.4', 'integrate:heartbeat0', where, 'the heartbeat (exit conditions) is not evaluated once before the first step')
-    lb = calls([loop['inner'][1]])
+    lb = calls(loop_items)
     if 'reb_simulation_step' not in lb or 'reb_run_heartbeat' not in lb or lb.index('reb_run_heartbeat') < lb.index('reb_simulation_step'):
         ctx.report('R08.4', 'integrate:heartbeat', where, 'the loop body is not "step; heartbeat": exit conditions are not evaluated after every step')
     ca = calls(after)
